@@ -184,12 +184,26 @@ func verifH_C18_complete() {
 	for i := 0; i < L.n; i++ {
 		verifAssume(verifIsMrzChar(m[i]))
 	}
-	verifAssume(m[L.numCD] != '<')
+	extk := verifParam("extk") // 0: plain document number; k>0: extended, first filler of the optional data at index k
 	digit := func(lo, hi, cdPos int) {
 		cd, ok := verifRefCD(m[lo:hi])
 		verifAssume(ok && m[cdPos] == cd)
 	}
-	digit(L.numLo, L.numHi, L.numCD)
+	var fullNum []byte
+	if extk == 0 || L.optLo < 0 {
+		verifAssume(m[L.numCD] != '<')
+		digit(L.numLo, L.numHi, L.numCD)
+		fullNum = m[L.numLo:L.numHi]
+	} else {
+		verifAssume(m[L.numCD] == '<')
+		for i := 0; i < extk; i++ {
+			verifAssume(m[L.optLo+i] != '<')
+		}
+		verifAssume(m[L.optLo+extk] == '<')
+		fullNum = verifCat(m[L.numLo:L.numHi], m[L.optLo:L.optLo+extk-1])
+		cd, ok := verifRefCD(fullNum)
+		verifAssume(ok && m[L.optLo+extk-1] == cd)
+	}
 	digit(L.dobLo, L.dobHi, L.dobCD)
 	digit(L.expLo, L.expHi, L.expCD)
 	if L.opt3Lo >= 0 {
@@ -210,12 +224,17 @@ func verifH_C18_complete() {
 	}
 	verifAssertSeqEqual([]byte(out.DocumentCode), verifDecoded(m[L.codeLo:L.codeLo+2]), "document code")
 	verifAssertSeqEqual([]byte(out.IssuingState), verifDecoded(m[L.stateLo:L.stateLo+3]), "issuing state")
-	verifAssertSeqEqual([]byte(out.DocumentNumber), verifDecoded(m[L.numLo:L.numHi]), "document number")
+	verifAssertSeqEqual([]byte(out.DocumentNumber), verifDecoded(fullNum), "document number")
 	verifAssertSeqEqual([]byte(out.Nationality), verifDecoded(m[L.natLo:L.natLo+3]), "nationality")
 	verifAssertSeqEqual([]byte(out.DateOfBirth), verifDecoded(m[L.dobLo:L.dobHi]), "date of birth")
 	verifAssertSeqEqual([]byte(out.Sex), verifDecoded(m[L.sexPos:L.sexPos+1]), "sex")
 	verifAssertSeqEqual([]byte(out.DateOfExpiry), verifDecoded(m[L.expLo:L.expHi]), "date of expiry")
-	verifAssertSeqEqual([]byte(out.OptionalData), verifDecoded(m[L.optDecLo:L.optDecHi]), "optional data")
+	if extk == 0 || L.optLo < 0 {
+		verifAssertSeqEqual([]byte(out.OptionalData), verifDecoded(m[L.optDecLo:L.optDecHi]), "optional data")
+	} else {
+		verifReach("extended")
+		verifAssertSeqEqual([]byte(out.OptionalData), verifDecoded(m[L.optLo+extk+1:L.optHi]), "optional data after an extended document number")
+	}
 	if L.opt2Lo >= 0 {
 		verifAssertSeqEqual([]byte(out.OptionalData2), verifDecoded(m[L.opt2Lo:L.opt2Hi]), "optional data 2")
 	}
